@@ -32,7 +32,7 @@ type c16Witness struct {
 func init() {
 	core.Register(&core.Check{
 		ID:   "C16",
-		Rule: "trees: C02's single-site trees (every position x form x shape x spelling, relative and absolute roots), combined and PRNG-drawn multi-site trees, plus special trees: same file under three spellings, same component name in two files, a root component that is a whole-file reference together with a reference into a sub-fragment of that file, top-level components of every kind that are external references, external files referring back into the root, cycles across files. For each: load with external references allowed, InternalizeRefs with a counting RefNameResolver wrapper, json.Marshal, reload with external references disallowed from a reader that serves nothing. Checked: no $ref outside #/components/, reload succeeds, Validate verdict unchanged, every planted site resolves to the object carrying the same marker as before (so distinct targets are not merged), request/response verdicts on a traffic sample unchanged, bounded resolver calls. Distinct = tree signature; non-trivial = at least one external reference.",
+		Rule: "trees: C02's single-site trees (every position x form x shape x spelling, relative and absolute roots), combined and PRNG-drawn multi-site trees, plus special trees: same file under three spellings, two files with the same tail path above and below the root's directory, same component name in two files, a root component that is a whole-file reference together with a reference into a sub-fragment of that file, top-level components of every kind that are external references, external files referring back into the root, cycles across files. For each: load with external references allowed, InternalizeRefs with a counting RefNameResolver wrapper, json.Marshal, reload with external references disallowed from a reader that serves nothing. Checked: no $ref outside #/components/, reload succeeds, Validate verdict unchanged, every planted site resolves to the object carrying the same marker as before (so distinct targets are not merged), request/response verdicts on a traffic sample unchanged, bounded resolver calls. Distinct = tree signature; non-trivial = at least one external reference.",
 		Assumptions: []string{
 			"markers identify objects; content equality beyond the marker is covered by the traffic and Validate verdict comparisons",
 			"termination: at most 1000 resolver calls per reference site, plus the CPU-time watchdog",
@@ -137,6 +137,23 @@ func c16Special() []refTree {
 			{Position: "schema.items", Kind: "schema", Shape: "same-file-three-spellings", Ref: "sub/../lib.json#/components/schemas/T", Marker: "MARKLIBT"},
 			{Position: "schema.allOf[0]", Kind: "schema", Shape: "same-name-other-file", Ref: "other/lib.json#/components/schemas/T", Marker: "MARKOTHERT"},
 			{Position: "schema.not", Kind: "schema", Shape: "same-file-other-component", Ref: "lib.json#/components/schemas/U", Marker: "MARKLIBU"},
+		})
+		// (a2) two different files with the same tail path, one above the root's directory and one below it
+		root = refRootSkeleton()
+		dig(root, "components", "schemas")["Site"] = gen.S{"$ref": "../schemas/pet.json"}
+		dig(root, "components", "schemas", "Holder", "properties")["p"] = gen.S{"$ref": "schemas/pet.json"}
+		dig(root, "components", "schemas")["Arr"] = gen.S{"type": "array", "items": gen.S{"$ref": "../schemas/lib.json#/components/schemas/T"}}
+		dig(root, "components", "schemas")["All"] = gen.S{"allOf": gen.Arr(gen.S{"$ref": "schemas/lib.json#/components/schemas/T"})}
+		mk(rootPath, root, map[string]gen.S{
+			path.Join(path.Dir(dir), "schemas/pet.json"): {"type": "object", "title": "MARKABOVE"},
+			dir + "/schemas/pet.json":                    {"type": "object", "title": "MARKBELOW"},
+			path.Join(path.Dir(dir), "schemas/lib.json"): lib("above", gen.S{"T": gen.S{"type": "object", "title": "MARKABOVET"}}),
+			dir + "/schemas/lib.json":                    lib("below", gen.S{"T": gen.S{"type": "object", "title": "MARKBELOWT"}}),
+		}, []refPlan{
+			{Position: "components.schemas.Site", Kind: "schema", Shape: "same-tail-path-above-and-below-root-dir", Ref: "../schemas/pet.json", Marker: "MARKABOVE"},
+			{Position: "schema.properties.p", Kind: "schema", Shape: "same-tail-path-above-and-below-root-dir", Ref: "schemas/pet.json", Marker: "MARKBELOW"},
+			{Position: "schema.items", Kind: "schema", Shape: "same-tail-path-above-and-below-root-dir", Ref: "../schemas/lib.json#/components/schemas/T", Marker: "MARKABOVET"},
+			{Position: "schema.allOf[0]", Kind: "schema", Shape: "same-tail-path-above-and-below-root-dir", Ref: "schemas/lib.json#/components/schemas/T", Marker: "MARKBELOWT"},
 		})
 		// (b) a root component that IS a whole-file reference + a reference into a sub-fragment of that file, in a component that sorts earlier
 		root = refRootSkeleton()
